@@ -6,12 +6,14 @@ import numpy as np
 import common as C
 
 PID = "C11"
-LEAN_TARGETS = ["TfPwaV.Props.C11", "TfPwaV.Gen.KinF"]
-PROP_MODULES = ["TfPwaV.Props.C11"]
-ALL_MODULES = ["TfPwaV.Proofs.Kin", "TfPwaV.Props.C11", "TfPwaV.Proofs.ScalarR"]
+LEAN_TARGETS = ["TfPwaV.Props.C11", "TfPwaV.Props.C11b", "TfPwaV.Gen.KinF", "TfPwaV.Gen.DalitzF"]
+PROP_MODULES = ["TfPwaV.Props.C11", "TfPwaV.Props.C11b"]
+ALL_MODULES = ["TfPwaV.Proofs.Kin", "TfPwaV.Proofs.Dalitz", "TfPwaV.Props.C11", "TfPwaV.Props.C11b", "TfPwaV.Proofs.ScalarR"]
 ASSUMPTIONS = [
     "IEEE double evaluation of the same formula text (Lean Float vs TensorFlow) agrees to 1e-11 relative to the scale gamma^2*|p|; cases with gamma > 1e4 are counted as ill-conditioned and skipped",
     "theorems hold over the reals in the regular branch eps < |v|^2 < 1; the guard branch (|v|^2 <= 1e-14) has its own statements",
+    "Dalitz theorem (dalitz_reproduces) holds in the interior of the Dalitz region as seen by the code's own square roots (lambda > 0, x14*G >= 0)",
+    "helicity-angle cascade round trip (build_data -> cal_angle -> find_variable) is NOT proved: it is validated on the implementation for every topology with 3..5 final particles (all 3+15+105 chains of DecayChain.from_particles) on seeded masses/angles, tolerance 1e-6 (the chain takes acos/cos and sqrt|m^2| of rounded quantities: observed error <= 3e-8)",
 ]
 
 
@@ -41,7 +43,7 @@ def gen_cases(rng, n):
     return out
 
 
-def correspond(ctx, res):
+def correspond_boost(ctx, res):
     import tensorflow as tf
     from tf_pwa.angle import LorentzVector as lv
     rng = np.random.Generator(np.random.Philox(ctx.seed + 11))
@@ -112,7 +114,7 @@ def correspond(ctx, res):
         ctx.hint = first
 
 
-def search(ctx, res):
+def search_boost(ctx, res):
     """Direct statement of the property on the implementation."""
     import tensorflow as tf
     from tf_pwa.angle import LorentzVector as lv
@@ -163,13 +165,271 @@ def search(ctx, res):
     res.coverage["search_cases"] = int(n)
 
 
+# ---------------------------------------------------------------------------------------------
+# Dalitz clause
+# ---------------------------------------------------------------------------------------------
+
+def dalitz_points(rng, n):
+    """Seeded mass sets and (m12, m23) inside the Dalitz region, incl. points close to the boundary."""
+    out = []
+    while len(out) < n:
+        m1, m2, m3 = [float(rng.choice([0.0, 0.000511, 0.139, 0.493, 0.938, 1.5])) for _ in range(3)]
+        q = float(rng.choice([0.01, 0.2, 1.0, 3.0]))
+        m0 = m1 + m2 + m3 + q
+        # phase-space point by sequential two-body decay in numpy (independent of the library)
+        s23 = float(rng.uniform((m2 + m3) ** 2, (m0 - m1) ** 2))
+        if len(out) % 7 == 3:  # near the m23 edges
+            t = float(rng.choice([1e-6, 1e-4, 1 - 1e-6, 1 - 1e-4]))
+            s23 = (m2 + m3) ** 2 + t * ((m0 - m1) ** 2 - (m2 + m3) ** 2)
+        m23 = math.sqrt(s23)
+        e2 = (s23 + m2 * m2 - m3 * m3) / (2 * m23)
+        e1 = (m0 * m0 - s23 - m1 * m1) / (2 * m23)
+        p2 = math.sqrt(max(e2 * e2 - m2 * m2, 0.0))
+        p1 = math.sqrt(max(e1 * e1 - m1 * m1, 0.0))
+        lo = (e1 + e2) ** 2 - (p1 + p2) ** 2
+        hi = (e1 + e2) ** 2 - (p1 - p2) ** 2
+        c = float(rng.uniform(0.0, 1.0))
+        if len(out) % 5 == 4:
+            c = float(rng.choice([1e-5, 1e-3, 1 - 1e-3, 1 - 1e-5]))
+        s12 = lo + c * (hi - lo)
+        out.append((s12, s23, m0, m1, m2, m3))
+    return out
+
+
+def correspond_dalitz(ctx, res):
+    from tf_pwa.data_trans.dalitz import Dalitz
+    rng = np.random.Generator(np.random.Philox(ctx.seed + 1101))
+    n = 1500 if ctx.quick else 30000
+    pts = dalitz_points(rng, n)
+    lines = ["C11d gen " + " ".join(C.f2h(x) for x in p) for p in pts]
+    out = ctx.model.query(lines)
+    nbad, worst, first, nskip = 0, 0.0, None, 0
+    for p, line in zip(pts, out):
+        if line == "bad-op":
+            res.broke("model driver bad-op (Dalitz)", lines[0])
+            return
+        mv = np.array([C.h2f(x) for x in line.split()])
+        p1, p2, p3 = Dalitz(p[2], p[3], p[4], p[5]).generate_p(np.array([p[0]]), np.array([p[1]]))
+        iv = np.concatenate([p1.numpy()[0], p2.numpy()[0], p3.numpy()[0]])
+        if not (np.all(np.isfinite(mv)) and np.all(np.isfinite(iv))):
+            # a point numerically on the boundary: the roots get a (rounding-)negative argument in either evaluation
+            nskip += 1
+            continue
+        # conditioning: the roots amplify rounding by 1/sqrt(distance to the boundary); scale by the largest |pc|, |pa|
+        lam = (p[2] ** 2 - (p[3] + math.sqrt(p[1])) ** 2) * (p[2] ** 2 - (p[3] - math.sqrt(p[1])) ** 2)
+        pc = abs(iv[6])
+        if lam < 1e-6 * p[2] ** 4 or pc < 1e-4 * p[2]:
+            nskip += 1
+            continue
+        # forward error of the same formula text in double precision ~ eps * (m0^4/lambda + (m0/pc)^2)
+        cond = 1.0 + p[2] ** 4 / lam + (p[2] / pc) ** 2
+        err = float(np.max(np.abs(mv - iv))) / p[2] / cond
+        worst = max(worst, err)
+        if not err < 1e-12:
+            nbad += 1
+            if first is None:
+                first = {"args": list(p), "impl": list(map(float, iv)), "model": list(map(float, mv)), "rel_err": err}
+    res.coverage["dalitz_points"] = n
+    res.coverage["dalitz_skipped_ill_conditioned"] = nskip
+    res.coverage["dalitz_worst_rel_err"] = worst
+    res.coverage["traces_validated_against_impl"] = res.coverage.get("traces_validated_against_impl", 0) + n - nskip
+    res.samples.append({"op": lines[0], "model": out[0]})
+    if nbad:
+        res.broke("correspondence DalitzF.gen vs tf_pwa.data_trans.dalitz.generate_p", {"n": nbad, "first": first})
+
+
+def search_dalitz(ctx, res):
+    """The Dalitz clause stated on the implementation: on-shell, sum = parent at rest, variables reproduced."""
+    from tf_pwa.data_trans.dalitz import Dalitz
+    rng = np.random.Generator(np.random.Philox(ctx.seed + 1102))
+    n = 3000 if (ctx.quick and not ctx.suspect) else 40000
+    pts = dalitz_points(rng, n)
+    A = np.array(pts)
+    nfail, nskip, worst = 0, 0, 0.0
+    for key in sorted({tuple(r[2:]) for r in pts}):
+        sel = np.all(A[:, 2:] == np.array(key), axis=1)
+        m0, m1, m2, m3 = key
+        p1, p2, p3 = [x.numpy() for x in Dalitz(m0, m1, m2, m3).generate_p(A[sel, 0], A[sel, 1])]
+        ok = np.all(np.isfinite(p1) & np.isfinite(p2) & np.isfinite(p3), axis=-1)
+        # conditioning guard (same as the correspondence): the code divides by sqrt(lambda) and takes sqrt of the
+        # boundary polynomial, so rounding is amplified without bound at the edge of the Dalitz plot
+        lam = (m0 ** 2 - (m1 + np.sqrt(A[sel, 1])) ** 2) * (m0 ** 2 - (m1 - np.sqrt(A[sel, 1])) ** 2)
+        ok &= (lam > 1e-6 * m0 ** 4) & (np.abs(p2[:, 2]) > 1e-4 * m0)
+        nskip += int(np.sum(~ok))
+        cond = 1.0 + m0 ** 4 / np.where(ok, lam, 1.0) + (m0 / np.where(ok, np.abs(p2[:, 2]), 1.0)) ** 2
+
+        def M2(p):
+            return p[:, 0] ** 2 - p[:, 1] ** 2 - p[:, 2] ** 2 - p[:, 3] ** 2
+        tot = p1 + p2 + p3
+        sc = m0 * m0
+        checks = {
+            "m1": np.abs(M2(p1) - m1 * m1) / sc, "m2": np.abs(M2(p2) - m2 * m2) / sc, "m3": np.abs(M2(p3) - m3 * m3) / sc,
+            "m12": np.abs(M2(p1 + p2) - A[sel, 0]) / sc, "m23": np.abs(M2(p2 + p3) - A[sel, 1]) / sc,
+            "sum": np.max(np.abs(tot - np.array([m0, 0, 0, 0])), axis=-1) / m0,
+        }
+        checks = {k: v / cond for k, v in checks.items()}
+        for name, e in checks.items():
+            if np.any(ok):
+                worst = max(worst, float(np.max(e[ok])))
+            bad = np.where(ok & ~(e < 1e-12))[0]
+            for i in bad[:2]:
+                if nfail < 10:
+                    res.fail("dalitz:" + name, "Dalitz.generate_p(m12=%r, m23=%r; m0..m3=%r) does not reproduce %s (residual %.3g)" % (
+                        A[sel, 0][i], A[sel, 1][i], key, name, e[i]),
+                        {"op": "dalitz", "m12": float(A[sel, 0][i]), "m23": float(A[sel, 1][i]), "masses": list(key), "what": name})
+                nfail += 1
+    res.coverage["dalitz_search_points"] = n
+    res.coverage["dalitz_search_skipped_ill_conditioned"] = nskip
+    res.coverage["dalitz_search_worst_residual"] = worst
+
+
+# ---------------------------------------------------------------------------------------------
+# helicity-angle cascade round trip (validated on the implementation; not proved)
+# ---------------------------------------------------------------------------------------------
+
+def _roundtrip_chain(ch, finals, rnd, N):
+    import tensorflow as tf
+    from tf_pwa.data_trans.helicity_angle import HelicityAngle
+    ha = HelicityAngle(ch)
+    mass = {}
+    for f in finals:
+        mass[f] = np.full(N, rnd.choice([0.0, 0.14, 0.5, 0.94]))
+
+    def m_of(p):
+        if p in mass:
+            return mass[p]
+        for d in ch:
+            if d.core == p:
+                lo = sum(m_of(o) for o in d.outs)
+                mass[p] = lo + np.array([rnd.choice([0.02, 0.3, 1.0]) * rnd.uniform(0.5, 1.0) for _ in range(N)])
+                return mass[p]
+        raise KeyError(p)
+    m_of(ch.top)
+    decs = list(ch)
+    cos = [np.array([rnd.uniform(-0.995, 0.995) for _ in range(N)]) for _ in decs]
+    phi = [np.array([rnd.uniform(-3.13, 3.13) for _ in range(N)]) for _ in decs]
+    ms = {k: tf.constant(v) for k, v in mass.items()}
+    p4 = ha.build_data(ms, [tf.constant(c) for c in cos], [tf.constant(c) for c in phi])
+    dat = ha.cal_angle(p4)
+    ms2, cos2, phi2 = ha.find_variable(dat)
+    errs = {}
+    for k in mass:
+        # compare squared masses (sqrt|m2| amplifies rounding for massless particles)
+        errs["mass " + str(k)] = float(np.max(np.abs(ms2[k].numpy() ** 2 - mass[k] ** 2))) / float(np.max(mass[ch.top]) ** 2)
+    for j, (a, b) in enumerate(zip(cos, cos2)):
+        errs["cos(theta) of %s" % decs[j]] = float(np.max(np.abs(a - b.numpy())))
+    for j, (a, b) in enumerate(zip(phi, phi2)):
+        d = np.abs(a - b.numpy())
+        d = np.minimum(d, 2 * np.pi - d)
+        errs["phi of %s" % decs[j]] = float(d.max())
+    # momenta: on shell and summing to the parent at rest
+    tot = sum(p4[f].numpy() for f in finals)
+    errs["sum"] = float(np.max(np.abs(tot - np.concatenate([mass[ch.top][:, None], np.zeros((N, 3))], -1))))
+    return errs, {"masses": {str(k): [float(x) for x in v] for k, v in mass.items()}, "cos": [list(map(float, c)) for c in cos], "phi": [list(map(float, c)) for c in phi]}
+
+
+def search_cascade(ctx, res):
+    import random
+    from tf_pwa.particle import BaseParticle, DecayChain
+    rnd = random.Random(ctx.seed * 7919 + 11)
+    worst, nch, nfail = 0.0, 0, 0
+    deep = (not ctx.quick) or ctx.suspect
+    for n in (3, 4, 5):
+        top = BaseParticle("A")
+        finals = [BaseParticle(c) for c in "BCDEF"[:n]]
+        chains = DecayChain.from_particles(top, finals)
+        for ci, ch in enumerate(chains):
+            if n == 5 and not deep and rnd.random() > 0.3:
+                continue
+            nch += 1
+            errs, inp = _roundtrip_chain(ch, finals, rnd, 4 if not deep else 12)
+            for name, e in errs.items():
+                worst = max(worst, e)
+                if not e < 1e-6:
+                    if nfail < 8:
+                        res.fail("cascade:roundtrip", "HelicityAngle(%s).build_data -> cal_angle -> find_variable does not return the inputs: %s, max err %.3g" % (ch, name, e),
+                                 {"op": "cascade", "n": n, "chain_index": ci, "chain": str(ch), "what": name, "inputs": inp})
+                    nfail += 1
+    res.coverage["cascade_chains"] = nch
+    res.coverage["cascade_worst_err"] = worst
+    res.samples.append({"cascade_chains_checked": nch, "worst_roundtrip_error": worst})
+
+
+def correspond(ctx, res):
+    correspond_boost(ctx, res)
+    correspond_dalitz(ctx, res)
+
+
+def search(ctx, res):
+    search_boost(ctx, res)
+    search_dalitz(ctx, res)
+    search_cascade(ctx, res)
+
+
 def replay(ctx, payload):
-    print(payload)
-    return 0
+    """Re-execute the failing input of a replay file on the current /repo; exit 1 if it still fails."""
+    import tensorflow as tf
+    r = payload.get("replay") or {}
+    op = r.get("op")
+    res = C.Result()
+    if op in ("inverse", "dot", "matrix", "rest"):
+        from tf_pwa.angle import LorentzVector as lv
+        if op == "inverse":
+            p, v = tf.constant([r["p"]]), tf.constant([r["v"]])
+            back = lv.boost(lv.boost(p, v), -v).numpy()[0]
+            g2 = 1 / (1 - float(np.sum(np.array(r["v"]) ** 2)))
+            bad = not np.max(np.abs(back - np.array(r["p"]))) / (np.abs(r["p"]).sum() * g2 * g2 + 1e-30) < 1e-10
+            print("boost(boost(p,v),-v) =", list(back), "p =", r["p"])
+        elif op == "dot":
+            p, q, v = tf.constant([r["p"]]), tf.constant([r["q"]]), tf.constant([r["v"]])
+            d0 = float(lv.Dot(p, q)[0]); d1 = float(lv.Dot(lv.boost(p, v), lv.boost(q, v))[0])
+            g2 = 1 / (1 - float(np.sum(np.array(r["v"]) ** 2)))
+            bad = not abs(d1 - d0) / ((np.abs(r["p"]).sum() * np.abs(r["q"]).sum() + 1e-30) * g2) < 1e-10
+            print("p.q =", d0, "after boost:", d1)
+        elif op == "matrix":
+            f, p = tf.constant([r["f"]]), tf.constant([r["p"]])
+            a = tf.einsum("...ij,...j->...i", lv.boost_matrix(f), p).numpy()[0]
+            b = lv.boost(p, lv.boost_vector(f)).numpy()[0]
+            bad = not np.max(np.abs(a - b)) / (np.abs(r["p"]).sum() * (r["f"][0] ** 2 / lv.M2(f).numpy()[0])) < 1e-10
+            print("boost_matrix.p =", list(a), "boost(p, bv) =", list(b))
+        else:
+            f = tf.constant([r["f"]])
+            a = lv.rest_vector(f, f).numpy()[0]
+            bad = not np.max(np.abs(a[1:])) / np.abs(r["f"]).sum() < 1e-8
+            print("rest_vector(f,f) =", list(a))
+    elif op == "dalitz":
+        from tf_pwa.data_trans.dalitz import Dalitz
+        m0, m1, m2, m3 = r["masses"]
+        p1, p2, p3 = [x.numpy()[0] for x in Dalitz(m0, m1, m2, m3).generate_p(np.array([r["m12"]]), np.array([r["m23"]]))]
+        M2 = lambda p: p[0] ** 2 - p[1] ** 2 - p[2] ** 2 - p[3] ** 2
+        vals = {"m1": M2(p1) - m1 ** 2, "m2": M2(p2) - m2 ** 2, "m3": M2(p3) - m3 ** 2, "m12": M2(p1 + p2) - r["m12"], "m23": M2(p2 + p3) - r["m23"],
+                "sum": float(np.max(np.abs(p1 + p2 + p3 - np.array([m0, 0, 0, 0])))) * m0}
+        print(vals)
+        bad = not abs(vals[r["what"]]) / (m0 * m0) < 1e-9
+    elif op == "cascade":
+        import random
+        from tf_pwa.particle import BaseParticle, DecayChain
+        n = r["n"]
+        top = BaseParticle("A")
+        finals = [BaseParticle(c) for c in "BCDEF"[:n]]
+        ch = DecayChain.from_particles(top, finals)[r["chain_index"]]
+        errs, _ = _roundtrip_chain(ch, finals, random.Random(1), 8)
+        print(str(ch), {k: v for k, v in errs.items() if v > 1e-6})
+        bad = any(not v < 1e-6 for v in errs.values())
+    else:
+        print("replay file names a broken obligation, not an input:", json_dumps(payload.get("broken")))
+        return 1
+    print("REPLAY: property C11 %s" % ("still violated" if bad else "holds on this input now"))
+    return 1 if bad else 0
+
+
+def json_dumps(x):
+    import json
+    return json.dumps(x, default=str)[:2000]
 
 
 MANIFEST = {
-    "text": "Lean theorems over the reals for ALL four-vectors and all velocities in the regular branch eps<|v|^2<1: boosts preserve Minkowski products and masses (boost_minkowski, boost_mass), boost by v then -v is the identity (boost_inverse), rest_vector then boost back is the identity, boost matrix = vector boost (all inputs), rotations preserve products; the eps-guard branch is stated separately. The same definition text is instantiated at Float and compared with tf_pwa.angle.LorentzVector.",
-    "note": "Model = templates/Kin.lean.in instantiated at R (proofs) and Float (execution); tie = differential run against LorentzVector.boost/rest_vector/boost_matrix/Dot/M on seeded structured vectors (tol 1e-11 relative to gamma^2|p|, gamma>1e4 skipped). Float rounding itself is not verified. Helicity-angle / Dalitz round trips are validated on the implementation by residuals (search), see evidence for what is proved vs validated.",
+    "text": "Lean theorems over the reals for ALL four-vectors and all velocities in the regular branch eps<|v|^2<1: boosts preserve Minkowski products and masses (boost_minkowski, boost_mass), boost by v then -v is the identity (boost_inverse), rest_vector then boost back is the identity, boost matrix = vector boost (all inputs), rotations preserve products; the eps-guard branch is stated separately; momenta built from Dalitz variables are on shell, sum to the parent at rest and reproduce (m12, m23) everywhere inside the Dalitz region (dalitz_reproduces, certificate-checked). The same definition text is instantiated at Float and compared with tf_pwa.angle.LorentzVector.",
+    "note": "Model = templates/Kin.lean.in instantiated at R (proofs) and Float (execution); tie = differential run against LorentzVector.boost/rest_vector/boost_matrix/Dot/M on seeded structured vectors (tol 1e-11 relative to gamma^2|p|, gamma>1e4 skipped). + Dalitz.generate_p vs templates/Dalitz.lean.in (a line-by-line transcription of _generate_fun0). Float rounding itself is not verified. NOT proved, validated only: the helicity-angle cascade round trip HelicityAngle.build_data -> cal_angle -> find_variable, run on the implementation for every chain topology with 3..5 final particles (all in the thorough tier, all 3- and 4-body plus a seeded 30% of the 105 five-body chains in the quick tier).",
     "technique": "Lean 4 proof over the reals (linear_combination certificates) of one template instantiated at Float for differential correspondence with the implementation",
 }
